@@ -237,11 +237,24 @@ func ruleG16(r *Run) {
 		nFlag := 0
 		for _, file := range pkg.Syntax {
 			ast.Inspect(file, func(n ast.Node) bool {
-				as, ok := n.(*ast.AssignStmt)
-				if !ok || as.Tok != token.OR_ASSIGN || len(as.Lhs) != 1 || types.ExprString(as.Lhs[0]) != "index" {
+				// index |= F, or the same written as an expression (index | F: what a helper returns, what a tuple assignment assigns)
+				var flagExpr ast.Expr
+				var at ast.Node
+				switch x := n.(type) {
+				case *ast.AssignStmt:
+					if x.Tok == token.OR_ASSIGN && len(x.Lhs) == 1 && types.ExprString(x.Lhs[0]) == "index" {
+						flagExpr, at = x.Rhs[0], x
+					}
+				case *ast.BinaryExpr:
+					if x.Op == token.OR && types.ExprString(ast.Unparen(x.X)) == "index" {
+						flagExpr, at = x.Y, x
+					}
+				}
+				if flagExpr == nil {
 					return true
 				}
-				fv, ok := constU64(info, as.Rhs[0])
+				as := at
+				fv, ok := constU64(info, flagExpr)
 				if !ok {
 					return true
 				}
